@@ -611,6 +611,116 @@ func recycle(w *vt.Writer, p *party, r *rand.Rand, long bool) {
 	}
 }
 
+// Retained outputs: an application keeps the slices Encrypt / Decrypt RETURNED (the slices themselves, not copies)
+// while it goes on calling the same primitive. After k later calls the content of every retained slice is read - before
+// any further Tink call - and logged next to the copy taken at its return (out_at_return / out_retained). The
+// reference judges the output as returned, the trace spec requires retained = at-return, and Tink itself then decrypts
+// what the retained ciphertext slices hold now (class "retained": must give each one's own plaintext).
+// seq / seq_i carry the inputs of the whole sequence so that a replay re-executes it.
+type seqIn struct {
+	Arg  string `json:"arg"` // plaintext (Encrypt sequence) or ciphertext (Decrypt sequence)
+	Info string `json:"info"`
+}
+
+func retainLens(long bool) (pl, il []int) {
+	if long {
+		return []int{40, 40, 12, 40, 100, 0, 40, 1, 40, 300, 40}, []int{10, 10, 10, 0, 33, 10, 10, 10, 0, 64, 10}
+	}
+	return []int{40, 40, 12, 40, 100, 0}, []int{10, 10, 10, 0, 33, 10}
+}
+
+// retainEnc: k Encrypt calls on one primitive keeping the returned slices; returns the ciphertexts as returned.
+func retainEnc(w *vt.Writer, p *party, in []seqIn) (cts [][]byte) {
+	n := len(in)
+	outs, at, now := make([][]byte, n), make([][]byte, n), make([][]byte, n)
+	errs, pns, pvs := make([]bool, n), make([]bool, n), make([]any, n)
+	for k, m := range in { // phase 1: nothing but Tink calls and copies
+		pbuf, ibuf := clone(vt.Unhex(m.Arg)), clone(vt.Unhex(m.Info))
+		var out []byte
+		var err error
+		pns[k], pvs[k] = vt.Try(func() { out, err = p.enc.Encrypt(pbuf, ibuf) })
+		outs[k], errs[k] = out, err != nil
+		at[k] = append([]byte{}, out...)
+	}
+	for k := range in { // phase 2: what do the retained slices hold now?
+		now[k] = append([]byte{}, outs[k]...)
+	}
+	for k, m := range in {
+		e := p.c.ev("encrypt")
+		p.fill(e, at[k])
+		e["class"], e["kind"], e["want"], e["pre"], e["pre_info"] = "enc", "retained-output", "", "", ""
+		e["pt"], e["info"], e["ct"] = m.Arg, m.Info, vt.Hex(at[k])
+		e["out_at_return"], e["out_retained"], e["seq"], e["seq_i"] = vt.Hex(at[k]), vt.Hex(now[k]), in, k
+		e["err"], e["panic"], e["in_intact"] = errs[k], pns[k], true
+		if pns[k] {
+			e["panicVal"] = fmt.Sprint(pvs[k])
+		}
+		w.Emit(e)
+	}
+	for k, m := range in { // phase 3: Tink decrypts what the retained slices hold now
+		if !errs[k] && !pns[k] {
+			info := vt.Unhex(m.Info)
+			p.decryptOn(w, "retained", "retained-ciphertext", "", nil, clone(now[k]), clone(info), now[k], info, vt.Unhex(m.Arg))
+			cts = append(cts, at[k])
+		} else {
+			cts = append(cts, nil)
+		}
+	}
+	return cts
+}
+
+// retainDec: k Decrypt calls on one primitive keeping the returned plaintext slices.
+func retainDec(w *vt.Writer, p *party, in []seqIn) {
+	n := len(in)
+	outs, at, now := make([][]byte, n), make([][]byte, n), make([][]byte, n)
+	errs, pns, pvs := make([]bool, n), make([]bool, n), make([]any, n)
+	for k, m := range in {
+		buf, ibuf := clone(vt.Unhex(m.Arg)), clone(vt.Unhex(m.Info))
+		var out []byte
+		var err error
+		pns[k], pvs[k] = vt.Try(func() { out, err = p.dec.Decrypt(buf, ibuf) })
+		if err != nil || pns[k] {
+			out = nil
+		}
+		outs[k], errs[k] = out, err != nil || pns[k]
+		at[k] = append([]byte{}, out...)
+	}
+	for k := range in {
+		now[k] = append([]byte{}, outs[k]...)
+	}
+	for k, m := range in {
+		e := p.c.ev("decrypt")
+		p.fill(e, vt.Unhex(m.Arg))
+		e["class"], e["kind"], e["want"], e["pre"], e["pre_info"] = "own", "retained-plaintext", "", "", ""
+		e["pt"], e["info"], e["ct"] = vt.Hex(at[k]), m.Info, m.Arg
+		e["out_at_return"], e["out_retained"], e["seq"], e["seq_i"] = vt.Hex(at[k]), vt.Hex(now[k]), in, k
+		e["err"], e["panic"], e["in_intact"] = errs[k], pns[k], true
+		if pns[k] {
+			e["panicVal"] = fmt.Sprint(pvs[k])
+		}
+		w.Emit(e)
+	}
+}
+
+// retain runs both sequences: Encrypt outputs retained, then the Decrypt outputs of those ciphertexts retained.
+func retain(w *vt.Writer, p *party, r *rand.Rand, long bool) {
+	pl, il := retainLens(long)
+	var in []seqIn
+	for k := range pl {
+		in = append(in, seqIn{vt.Hex(content(r, pl[k], k)), vt.Hex(vt.Bytes(r, il[k]))})
+	}
+	cts := retainEnc(w, p, in)
+	var din []seqIn
+	for k, ct := range cts {
+		if ct != nil {
+			din = append(din, seqIn{vt.Hex(ct), in[k].Info})
+		}
+	}
+	if len(din) > 0 {
+		retainDec(w, p, din)
+	}
+}
+
 func flip(b []byte, byteIdx int, bit uint) []byte {
 	o := append([]byte{}, b...)
 	o[byteIdx] ^= 1 << (bit % 8)
@@ -962,6 +1072,7 @@ func runTink(w *vt.Writer) {
 		}
 		if c.Deep || vt.Thorough() {
 			recycle(w, p, r, vt.Thorough() && c.Deep)
+			retain(w, p, r, vt.Thorough() && c.Deep)
 		}
 		if vt.Thorough() && c.Deep {
 			// every plaintext length 0..48: DEM block boundaries, the short (< 16) and long S2V branch of AES-SIV,
@@ -1014,6 +1125,7 @@ func runTink(w *vt.Writer) {
 			mutate(w, p, o, ct, info, r, li)
 		}
 		recycle(w, p, r, false)
+		retain(w, p, r, false)
 	}
 }
 
@@ -1048,6 +1160,7 @@ func twoRawKeys(w *vt.Writer, r *rand.Rand) {
 			}
 		}
 		recycle(w, p, r, false)
+		retain(w, p, r, false)
 	}
 }
 
@@ -1235,6 +1348,19 @@ func replay(path string, w *vt.Writer) {
 		vt.Fatal("replay: cannot construct the primitives: %v", err)
 	}
 	ct, info, want := vt.Unhex(str("ct")), vt.Unhex(str("info")), vt.Unhex(str("want"))
+	if k := str("kind"); k == "retained-output" || k == "retained-plaintext" { // the whole sequence again
+		raw, _ := json.Marshal(e["seq"])
+		var in []seqIn
+		if err := json.Unmarshal(raw, &in); err != nil || len(in) == 0 {
+			vt.Fatal("replay: bad seq: %v", err)
+		}
+		if k == "retained-output" {
+			retainEnc(w, p, in)
+		} else {
+			retainDec(w, p, in)
+		}
+		return
+	}
 	if str("pre") == "prev" { // the preceding call of the session on the same instance and buffers, then this call
 		s := newSession(p)
 		if str("ev") == "encrypt" {
